@@ -51,6 +51,8 @@ pub fn shards(tier: &str) -> Vec<String> {
     for k in ["bdd", "bcdd", "zbdd"] {
         for o in model::perms(3) {
             v.push(format!("{k}:{}:t1:addvars", model::order_str(&o)));
+            v.push(format!("{k}:{}:t1:twomgr", model::order_str(&o)));
+            v.push(format!("{k}:{}:t1:edges", model::order_str(&o)));
         }
     }
     if tier == "thorough" {
@@ -71,6 +73,24 @@ pub fn run(ctx: &mut Ctx) {
     let order = model::parse_order(parts[1]);
     let tc = ThreadCfg::parse(parts[2]);
     let n4 = parts.get(3).map(|s| s.to_string());
+    if n4.as_deref() == Some("edges") {
+        match parts[0] {
+            "bdd" => run_edges::<Bdd>(ctx, &order, tc),
+            "bcdd" => run_edges::<Bcdd>(ctx, &order, tc),
+            "zbdd" => run_edges::<Zbdd>(ctx, &order, tc),
+            _ => panic!("bad shard"),
+        }
+        return;
+    }
+    if n4.as_deref() == Some("twomgr") {
+        match parts[0] {
+            "bdd" => run_twomgr::<Bdd>(ctx, &order, tc),
+            "bcdd" => run_twomgr::<Bcdd>(ctx, &order, tc),
+            "zbdd" => run_twomgr::<Zbdd>(ctx, &order, tc),
+            _ => panic!("bad shard"),
+        }
+        return;
+    }
     if n4.as_deref() == Some("addvars") {
         match parts[0] {
             "bdd" => run_addvars::<Bdd>(ctx, &order, tc),
@@ -544,6 +564,99 @@ fn run_reord<K: BoolKind>(ctx: &mut Ctx, o1: &[u32], o2: &[u32], tc: ThreadCfg) 
 
 /// All 256 functions over 3 variables; negation and the connectives are computed once (results dropped, no
 /// collection), then a fourth variable is added and everything is computed again on the old handles.
+/// The edge-level entry points of the function types (`*_edge`, what the method forms are documented to be
+/// shorthands for): every connective on all ordered pairs of a 64-function set, `not_edge` and `ite_edge`.
+fn run_edges<K: BoolKind>(ctx: &mut Ctx, order: &[u32], tc: ThreadCfg) {
+    use oxidd::Function;
+    let n = 3u32;
+    ctx.group("edge-level entry points", |ctx| {
+        let tabs = model::subset3();
+        let (mref, fns) = functions_of::<K>(n, order, 1 << 12, tc, &tabs);
+        mref.with_manager_shared(|m| {
+            for (i, &a) in tabs.iter().enumerate() {
+                let fe = fns[i].as_edge(m);
+                check_result::<K>(ctx, n, order, tc, "not_edge", &[a], model::not(a, n), K::F::not_edge(m, fe).map(|e| K::F::from_edge(m, e)));
+                for (j, &b) in tabs.iter().enumerate() {
+                    let ge = fns[j].as_edge(m);
+                    for op in BINOPS {
+                        let r = match op {
+                            model::BinOp::And => K::F::and_edge(m, fe, ge),
+                            model::BinOp::Or => K::F::or_edge(m, fe, ge),
+                            model::BinOp::Xor => K::F::xor_edge(m, fe, ge),
+                            model::BinOp::Equiv => K::F::equiv_edge(m, fe, ge),
+                            model::BinOp::Nand => K::F::nand_edge(m, fe, ge),
+                            model::BinOp::Nor => K::F::nor_edge(m, fe, ge),
+                            model::BinOp::Imp => K::F::imp_edge(m, fe, ge),
+                            model::BinOp::ImpStrict => K::F::imp_strict_edge(m, fe, ge),
+                        };
+                        check_result::<K>(ctx, n, order, tc, &format!("{}_edge", op.name()), &[a, b], op.apply(a, b, n), r.map(|e| K::F::from_edge(m, e)));
+                    }
+                }
+            }
+            let small: Vec<usize> = (0..tabs.len()).step_by(4).collect();
+            for &i in &small {
+                for &j in &small {
+                    for &k in &small {
+                        let r = K::F::ite_edge(m, fns[i].as_edge(m), fns[j].as_edge(m), fns[k].as_edge(m));
+                        check_result::<K>(ctx, n, order, tc, "ite_edge", &[tabs[i], tabs[j], tabs[k]], model::ite(tabs[i], tabs[j], tabs[k], n), r.map(|e| K::F::from_edge(m, e)));
+                    }
+                }
+            }
+        });
+    });
+}
+
+/// One long session of the manager under test in which, between its own node creations, nodes of a second,
+/// large and fresh manager are created (the calling thread's allocation state belongs to the outer manager).
+fn run_twomgr<K: BoolKind>(ctx: &mut Ctx, order: &[u32], tc: ThreadCfg) {
+    use oxidd::{Manager, ManagerRef};
+    let n = 3u32;
+    let x: Vec<Tab> = (0..n).map(|v| model::var_tab(v, n)).collect();
+    for big in [1usize << 17, 200_000, 4096] {
+        ctx.group(&format!("one session with node creation in a second manager of {big} slots in between"), |ctx| {
+            let keep_tabs: Vec<Tab> = vec![x[0], x[1], x[2], 0xe8, 0x96];
+            let tabs = model::subset3();
+            let (mref, keep) = functions_of::<K>(n, order, 1 << 12, tc, &keep_tabs);
+            let other: crate::dd::MRefOf<K> = K::new_manager(big, 1024, 1);
+            other.with_manager_exclusive(|m| {
+                m.add_vars(3);
+            });
+            let mut made: Vec<(Tab, oxidd_core::util::AllocResult<K::F>, &'static str)> = vec![];
+            let mut foreign: Vec<(Tab, oxidd_core::util::AllocResult<K::F>)> = vec![];
+            mref.with_manager_shared(|_| {
+                let half = tabs.len() / 2;
+                for &t in &tabs[..half] {
+                    made.push((t, K::build(&mref, t), "before"));
+                }
+                for &t in &[0xcau64, 0x6a] {
+                    foreign.push((t, K::build(&other, t)));
+                }
+                for &t in &tabs[half..] {
+                    made.push((t, K::build(&mref, t), "between"));
+                }
+                foreign.push((0x1b, K::build(&other, 0x1b)));
+                for op in BINOPS {
+                    for (i, &a) in keep_tabs.iter().enumerate() {
+                        for (j, &b) in keep_tabs.iter().enumerate() {
+                            made.push((op.apply(a, b, n), apply_bin(op, &keep[i], &keep[j]), op.name()));
+                        }
+                    }
+                }
+            });
+            for (t, r, when) in made {
+                check_result::<K>(ctx, n, order, tc, &format!("created_{when}_the_foreign_nodes"), &[t], t, r);
+            }
+            for (t, f) in keep_tabs.iter().zip(&keep) {
+                check_result::<K>(ctx, n, order, tc, "old_handle", &[*t], *t, Ok(f.clone()));
+            }
+            let ident: Vec<u32> = (0..n).collect();
+            for (t, r) in foreign {
+                check_result::<K>(ctx, n, &ident, tc, "foreign_manager", &[t], t, r);
+            }
+        });
+    }
+}
+
 fn run_addvars<K: BoolKind>(ctx: &mut Ctx, order: &[u32], tc: ThreadCfg) {
     let zbdd = K::BK == BKind::Zbdd;
     let mut order4 = order.to_vec();
